@@ -181,11 +181,13 @@ func runC11(c c11Case, ev *Ev) error {
 					op.Note = "any"
 					// occupied = addresses that may be taken: sessions accepted and not yet acknowledged as deleted,
 					// plus establishments in flight (this one included)
+					// (read before this request is counted: whatever pushes the count over the pool size from here
+					// on, another request or this one, falls into this request's window)
+					dryBefore = dryEvents.Load()
 					occStart = occupied.Add(1)
 					if occStart >= poolSize+1 {
 						dryEvents.Add(1)
 					}
-					dryBefore = dryEvents.Load()
 				}
 				o := runs[i].Exec(op)
 				if c.Alloc && op.Kind == "est" && !o.Accepted {
